@@ -309,6 +309,158 @@ static void e2e(void) {
   body = NULL;
 }
 
+
+/* ------------------------------------------------------------------ scripted peer
+ * peer b1 <len> <seed> <srv_szx> <single_srv> <item>...   raw Block1 PUTs into the real server
+ * peer b2 <len> <seed> <cli_szx> <single_cli> <item>...   raw Block2 2.05s into the real client
+ *   item = num/m/szx/size/off/len/tag : Block option, Size1|Size2 ('-' = absent), payload =
+ *          body[off, off+len), tag = Request-Tag (b1) | ETag (b2), '-' = absent
+ * one result token per item:  D:<len>:<fnv> delivered body | C | F (4.08) | J (4.00/4.02) |
+ *                             P:<len>:<fnv> handed on as it is | E<code> other error
+ */
+static int peer_hs, peer_hc;
+static char peer_res[128];
+
+static void hnd_put_peer(coap_resource_t *r, coap_session_t *s, const coap_pdu_t *req,
+                         const coap_string_t *q, coap_pdu_t *resp) {
+  size_t len = 0, off = 0, total = 0;
+  const uint8_t *d = NULL;
+  coap_block_b_t b;
+  (void)r; (void)s; (void)q;
+  coap_get_data_large(req, &len, &d, &off, &total);
+  peer_hs++;
+  snprintf(peer_res, sizeof(peer_res), "%c:%zu:%08x",
+           coap_get_block_b(NULL, req, COAP_OPTION_BLOCK1, &b) ? 'P' : 'D', len, fnv(d, d ? len : 0));
+  coap_pdu_set_code(resp, COAP_RESPONSE_CODE_CHANGED);
+}
+
+static coap_response_t hnd_resp_peer(coap_session_t *s, const coap_pdu_t *sent, const coap_pdu_t *rcv,
+                                     const coap_mid_t mid) {
+  size_t len = 0, off = 0, total = 0;
+  const uint8_t *d = NULL;
+  coap_block_b_t b;
+  unsigned code = coap_pdu_get_code(rcv);
+  (void)s; (void)sent; (void)mid;
+  coap_get_data_large(rcv, &len, &d, &off, &total);
+  peer_hc++;
+  if (code == 69)
+    snprintf(peer_res, sizeof(peer_res), "%c:%zu:%08x",
+             coap_get_block_b(NULL, rcv, COAP_OPTION_BLOCK2, &b) ? 'P' : 'D', len, fnv(d, d ? len : 0));
+  else if (code == 130) snprintf(peer_res, sizeof(peer_res), "J");
+  else if (code == 136) snprintf(peer_res, sizeof(peer_res), "F");
+  else snprintf(peer_res, sizeof(peer_res), "E%u", code);
+  return COAP_RESPONSE_OK;
+}
+
+static void peer(void) {
+  int b2 = !strcmp(vtok[1], "b2");
+  body_len = (size_t)atol(vtok[2]);
+  long seed = atol(vtok[3]);
+  int szx_cfg = atoi(vtok[4]), single = atoi(vtok[5]);
+  body = (uint8_t *)malloc(body_len ? body_len : 1);
+  for (size_t i = 0; i < body_len; i++) body[i] = (uint8_t)fill_byte(seed, (long)i);
+  vn_now = 1000;
+  vn_log_reset();
+  vn_nnodes = 0;
+  vn_prng_seed((uint64_t)seed * 7919u + body_len);
+  srv = coap_new_context(NULL);
+  cli = coap_new_context(NULL);
+  coap_context_t *me = b2 ? cli : srv;
+  coap_context_set_block_mode(me, COAP_BLOCK_USE_LIBCOAP | (single ? COAP_BLOCK_SINGLE_BODY : 0));
+  if (szx_cfg != 7) coap_context_set_max_block_size(me, (size_t)16 << szx_cfg);
+  ep = vn_new_server_ep(srv);
+  coap_resource_t *r = coap_resource_init(coap_make_str_const("t"), 0);
+  coap_register_request_handler(r, COAP_REQUEST_PUT, hnd_put_peer);
+  coap_add_resource(srv, r);
+  coap_register_response_handler(cli, hnd_resp_peer);
+  coap_address_t peer_addr;
+  vn_addr4(&peer_addr, 0x0a000001u, 40000);
+  uint8_t tok[8] = {0x77};
+  size_t toklen = 1;
+  if (b2) {
+    /* the real client asks (NON, so that nothing is retransmitted); we play the server */
+    cs = vn_new_client(cli, &ep->bind_addr);
+    coap_pdu_t *p = coap_new_pdu(COAP_MESSAGE_NON, COAP_REQUEST_CODE_GET, cs);
+    coap_add_token(p, toklen, tok);
+    coap_add_option(p, COAP_OPTION_URI_PATH, 1, (const uint8_t *)"t");
+    coap_send(cs, p);
+  }
+  unsigned mid = 100;
+  for (int i = 6; i < vntok; i++) {
+    if (b2 && cs->lg_crcv == NULL) {
+      /* the previous block ended the transfer (delivered / refused): the application asks again */
+      coap_pdu_t *g = coap_new_pdu(COAP_MESSAGE_NON, COAP_REQUEST_CODE_GET, cs);
+      coap_add_token(g, toklen, tok);
+      coap_add_option(g, COAP_OPTION_URI_PATH, 1, (const uint8_t *)"t");
+      coap_send(cs, g);
+    }
+    unsigned num, m, szx;
+    long off, len;
+    char size_s[32], tag_s[32];
+    if (sscanf(vtok[i], "%u/%u/%u/%31[^/]/%ld/%ld/%31s", &num, &m, &szx, size_s, &off, &len, tag_s) != 7) {
+      printf("BADITEM ");
+      continue;
+    }
+    if (off < 0) off = 0;
+    if ((size_t)off > body_len) off = (long)body_len;
+    if (len < 0) len = 0;
+    if ((size_t)(off + len) > body_len) len = (long)(body_len - (size_t)off);
+    coap_pdu_t *p = coap_pdu_init(COAP_MESSAGE_NON, b2 ? COAP_RESPONSE_CODE_CONTENT : COAP_REQUEST_CODE_PUT,
+                                  (coap_mid_t)(mid++), 2048);
+    uint8_t buf[8];
+    coap_add_token(p, toklen, tok);
+    if (b2) {
+      if (strcmp(tag_s, "-")) {
+        unsigned long long e = strtoull(tag_s, NULL, 10);
+        coap_add_option(p, COAP_OPTION_ETAG, coap_encode_var_safe8(buf, sizeof(buf), e), buf);
+      }
+      coap_add_option(p, COAP_OPTION_BLOCK2,
+                      coap_encode_var_safe(buf, sizeof(buf), (num << 4) | (m << 3) | szx), buf);
+      if (strcmp(size_s, "-"))
+        coap_add_option(p, COAP_OPTION_SIZE2,
+                        coap_encode_var_safe(buf, sizeof(buf), (unsigned)atol(size_s)), buf);
+    } else {
+      coap_add_option(p, COAP_OPTION_URI_PATH, 1, (const uint8_t *)"t");
+      coap_add_option(p, COAP_OPTION_BLOCK1,
+                      coap_encode_var_safe(buf, sizeof(buf), (num << 4) | (m << 3) | szx), buf);
+      if (strcmp(size_s, "-"))
+        coap_add_option(p, COAP_OPTION_SIZE1,
+                        coap_encode_var_safe(buf, sizeof(buf), (unsigned)atol(size_s)), buf);
+      if (strcmp(tag_s, "-")) {
+        unsigned long t = strtoul(tag_s, NULL, 10);
+        coap_add_option(p, COAP_OPTION_RTAG, coap_encode_var_safe(buf, sizeof(buf), (unsigned)t), buf);
+      }
+    }
+    if (len > 0) coap_add_data(p, (size_t)len, body + off);
+    size_t hs = coap_pdu_encode_header(p, COAP_PROTO_UDP);
+    size_t first = vn_nout;
+    peer_res[0] = 0;
+    if (b2) vn_inject_session(cli, cs, p->token - hs, hs + p->used_size);
+    else vn_inject_ep(srv, ep, &peer_addr, NULL, p->token - hs, hs + p->used_size);
+    coap_delete_pdu(p);
+    if (peer_res[0]) {
+      printf("%s ", peer_res);
+    } else if (b2) {
+      printf("C ");
+    } else {
+      /* the server's reply decides */
+      unsigned code = 0;
+      for (size_t k = first; k < vn_nout; k++)
+        if (vn_out[k].ctx == srv && vn_out[k].len >= 4) code = vn_out[k].data[1];
+      if (code == 136) printf("F ");
+      else if (code == 128) printf("J ");
+      else if (code == 95 || code == 0) printf("C ");
+      else printf("E%u ", code);
+    }
+  }
+  printf("END\n");
+  if (b2) { vn_unregister_client(cs); coap_session_release(cs); }
+  coap_free_context(cli);
+  coap_free_context(srv);
+  free(body);
+  body = NULL;
+}
+
 int main(void) {
   coap_startup();
   coap_set_log_level(COAP_LOG_EMERG);
@@ -316,6 +468,7 @@ int main(void) {
   while (next_case(stdin)) {
     if (vntok == 0) { puts(""); continue; }
     if (!strcmp(vtok[0], "e2e") && vntok >= 12) e2e();
+    else if (!strcmp(vtok[0], "peer") && vntok >= 6) peer();
     else puts("ERROR unknown command");
     fflush(stdout);
   }
